@@ -126,6 +126,31 @@ def run(ctx):
         ctx.ob("R4", "TransactionManager::commit#guard-dominates", dom,
                what="the `transactions` write lock acquisition does not dominate validation and publication", where=commit.loc(locks[0].line))
 
+    # ---- R7 plumbing of the write set and of the validated snapshot
+    plumbing(ctx, P, "record_write")
+    # the sets and epochs validated in commit are those of the committing transaction (looked up by the tx_id parameter)
+    for n, (bi, si, rv, ln) in enumerate(wc):
+        for x in cx.facts_at(bi):
+            if x[0] == "call" and x[1].endswith("::contains") and x[2] is True and len(x[3]) >= 2:
+                ours = "param:2" in x[3][1] and WRITE_SET in x[3][1]
+                theirs = WRITE_SET in x[3][0]
+                ctx.ob("R7", "TransactionManager::commit#WriteConflict[%d]/sets" % n, ours and theirs,
+                       what="the write-write test does not compare the committing transaction's own write set (looked up by tx_id) "
+                            "with the other transaction's write set", where=commit.loc(ln))
+    # the transaction's start epoch comes from TxInfo::new's first parameter and the isolation level from its second
+    tn = P.fn("TxInfo::new")
+    tx_ = FlowCx(P, tn)
+    for (bi, si, rv, ln) in find_aggregates(tn, "TxInfo"):
+        for fname, op in zip(rv[5], rv[4]):
+            fn_ = fname.strip('"')
+            want = {"start_epoch": "param:1", "isolation_level": "param:2"}.get(fn_)
+            if want:
+                ctx.ob("R7", "TxInfo::new#%s" % fn_, want in tx_.tags(op),
+                       what="TxInfo::new does not store its %s argument in TxInfo.%s" % (fn_, fn_), where=tn.loc(ln))
+            if fn_ == "state":
+                ctx.ob("R7", "TxInfo::new#state", "agg:TxState::Active" in tx_.tags(op) or "const:TxState::Active" in tx_.tags(op),
+                       what="a new transaction does not start Active", where=tn.loc(ln))
+
     # ---- R5: gc retention
     gc = P.fn("TransactionManager::gc")
     found = []
@@ -173,3 +198,27 @@ def run(ctx):
                where=g.loc(ln))
     ctx.ob("R5", "TransactionManager::gc#active-kept", not active_true,
            what="gc's removal predicate can yield true for an Active transaction", where=gc.loc())
+
+
+def plumbing(ctx, P, which):
+    """record_write / record_read put the entity into the set of the transaction named by their tx_id parameter,
+    only while that transaction is Active; TxInfo::new stores its parameters in the same-named fields"""
+    setname = {"record_write": "write_set", "record_read": "read_set"}[which]
+    f = P.fn("TransactionManager::" + which)
+    fx = FlowCx(P, f)
+    ins = [(bi, t) for bi, t in f.calls() if callee_name(t).endswith("HashSet::insert")]
+    ok = False
+    guarded = False
+    for bi, t in ins:
+        rt = fx.tags(t["args"][0])
+        vt = fx.tags(t["args"][1])
+        if ("cell:TxInfo." + setname) in rt and "param:2" in rt and "param:3" in vt:
+            ok = True
+            guarded = any(x[0] == "cmp" and x[1] == "Eq" and (("cell:TxInfo.state" in x[2] and "const:TxState::Active" in x[3]) or
+                                                            ("cell:TxInfo.state" in x[3] and "const:TxState::Active" in x[2]))
+                          for x in fx.facts_at(bi))
+    ctx.ob("R7", "TransactionManager::%s#registers" % which, ok,
+           what="TransactionManager::%s does not insert its entity argument into TxInfo.%s of the transaction named by its tx_id "
+                "argument: validation works on the wrong or an empty set" % (which, setname), where=f.loc())
+    ctx.ob("R7", "TransactionManager::%s#active-only" % which, guarded,
+           what="TransactionManager::%s registers into a transaction without testing that it is Active" % which, where=f.loc())
